@@ -144,9 +144,12 @@ def cases(draw, switches):
     if d(st.booleans()):
         nd_lines = d(st.integers(1, 3))
         items_all = []
+        wide = d(st.integers(0, 5)) == 0  # scale: one READ with ten or more targets (string temporaries beyond tmp_9$ when an item is empty)
+        if wide:
+            feats.add("read_with_ten_or_more_targets")
         for _ in range(nd_lines):
             items = []
-            for _ in range(d(st.integers(1, 4))):
+            for _ in range(d(st.integers(1, 4)) if not wide else d(st.integers(10, 14))):
                 r = d(st.integers(0, 11))
                 if r < 4:
                     sp, v = d(st.sampled_from(cbgen.NUM_SPELLINGS))
@@ -177,8 +180,10 @@ def cases(draw, switches):
         reads = []
         numeric_targets = [["var", "A"], ["var", "B"], ["var", "X"]] + [["arr", n, [N(0)] * len(b)] for n, k, b, dm in arrays if k == "arr"]
         string_targets = [["svar", "S"], ["svar", "T"], ["svar", "NM"]] + [["sarr", n, [N(0)] * len(b)] for n, k, b, dm in arrays if k == "sarr"]
+        if wide:
+            numeric_targets += [["var", "C"], ["var", "Y"], ["var", "K2"]]
         while pos < len(items_all):
-            k = d(st.integers(1, 3))
+            k = d(st.integers(1, 3)) if not wide else d(st.integers(10, 14))
             tg = []
             for it in items_all[pos:pos + k]:
                 if it[0] in ("n", "h"):
